@@ -369,6 +369,18 @@ where
         LTermIterMut::new(self)
     }
 
+    /// Recursively find all `any` variables referenced by the fields of a compound object.
+    fn anyvars_compound(compound: &dyn CompoundObject<U, E>) -> Vec<LTerm<U, E>> {
+        let mut vars = vec![];
+        for child in compound.children() {
+            match child.as_term() {
+                Some(t) => vars.extend(t.anyvars()),
+                None => vars.extend(LTerm::anyvars_compound(child)),
+            }
+        }
+        vars
+    }
+
     /// Recursively find all `any` variables referenced by the LTerm.
     pub fn anyvars(self: &LTerm<U, E>) -> Vec<LTerm<U, E>> {
         match self.as_ref() {
@@ -380,6 +392,7 @@ where
                 }
                 vars
             }
+            LTermInner::Compound(compound) => LTerm::anyvars_compound(compound.as_ref()),
             _ => {
                 if self.is_any() {
                     vec![self.clone()]
